@@ -247,6 +247,21 @@ func oracleC03(p *plan.Plan, his []plan.Rec, res *plan.Result) {
 			}
 		}
 	}
+	// graceful leaves in progress: the departing member still answers requests with the table it had
+	var leaves [][2]int64
+	for i := range recs {
+		if recs[i].Op.K == "ctl.leave" && recs[i].Err != "skipped" {
+			leaves = append(leaves, [2]int64{recs[i].TInv, recs[i].TRet})
+		}
+	}
+	duringLeave := func(r *plan.Rec) bool {
+		for _, l := range leaves {
+			if r.TRet >= l[0] && r.TInv <= l[1] {
+				return true
+			}
+		}
+		return false
+	}
 	pendingAt := func(t int64) int {
 		n := 0
 		for _, e := range evTimes {
@@ -376,11 +391,11 @@ func oracleC03(p *plan.Plan, his []plan.Rec, res *plan.Result) {
 						// an older version came back after a Delete
 						class = "deleted-key-resurrected"
 					}
-					viol(res, class, r.Op.Key+slowTag(st.slowDelete)+overlapTag((st.overlapDel && class == "deleted-key-resurrected") || (class == "stale-read-during-handover" && pendingEvents >= 2))+windowTag(class == "deleted-key-resurrected" && st.inWindow["="+r.Val]), "%s but the key may only hold %v; writes: %s", descRecT(r), keysOf(st.vals), writesOf(his, r.Op.Key))
+					viol(res, class, r.Op.Key+slowTag(st.slowDelete)+overlapTag((st.overlapDel && class == "deleted-key-resurrected") || (class == "stale-read-during-handover" && pendingEvents >= 2))+windowTag(class == "deleted-key-resurrected" && st.inWindow["="+r.Val])+departTag(class == "stale-read-during-handover" && duringLeave(r)), "%s but the key may only hold %v; writes: %s", descRecT(r), keysOf(st.vals), writesOf(his, r.Op.Key))
 				}
 			case r.Err == plan.ENotFound:
 				if !st.vals[""] {
-					viol(res, "key-lost-during-handover", r.Op.Key+overlap(), "%s but the key may only hold %v; writes: %s", descRecT(r), keysOf(st.vals), writesOf(his, r.Op.Key))
+					viol(res, "key-lost-during-handover", r.Op.Key+overlap()+windowTag(st.inWindow[st.ack]), "%s but the key may only hold %v; writes: %s", descRecT(r), keysOf(st.vals), writesOf(his, r.Op.Key))
 				}
 			default:
 				res.Counters["oracle.failed_reads"]++
@@ -500,6 +515,15 @@ func oracleC03(p *plan.Plan, his []plan.Rec, res *plan.Result) {
 func windowTag(b bool) string {
 	if b {
 		return " written-during-handover"
+	}
+	return ""
+}
+
+// departTag marks a stale read that was answered while a member was leaving gracefully (known
+// finding "served-by-departing-member").
+func departTag(b bool) string {
+	if b {
+		return " served-by-departing-member"
 	}
 	return ""
 }
